@@ -13,6 +13,7 @@ attributes parse as JIDs (`stanza.NewIQ` fails otherwise) and the form of its co
 namespace XmppModel.CorrWrap
 
 inductive Api | unmarshal | unmarshalNil | unmarshalElement | iter | iterElement
+  | ibbOpen | ibbOpenMsg   -- round E: `ibb.open` behind `Handler.Open` / `OpenIQ` (packets acknowledged / carried by messages)
   deriving DecidableEq, Repr, Inhabited
 
 inductive Typ | result | error
@@ -56,10 +57,19 @@ def iterIQ (sh : Shape) : Out :=
   else if sh.typ == .error then ⟨true, false, 1⟩
   else ⟨false, true, 0⟩   -- the first token of the content is popped; an early end is not an error
 
+/-- `ibb.open` (`ibb/ibb.go`): `SendIQ`, a deferred `resp.Close()` on every path behind it, the start
+token of the reply, `stanza.UnmarshalIQError`; the content of a result is never read, the stream is
+registered only when the peer accepted.  The response is never handed on. -/
+def ibbOpen (sh : Shape) : Out :=
+  if newIQFails sh then ⟨true, false, 1⟩
+  else if sh.typ == .error then ⟨true, false, 1⟩
+  else ⟨false, false, 1⟩
+
 def call : Api → Shape → Out
   | .unmarshal, sh | .unmarshalElement, sh => unmarshalIQ false sh
   | .unmarshalNil, sh => unmarshalIQ true sh
   | .iter, sh | .iterElement, sh => iterIQ sh
+  | .ibbOpen, sh | .ibbOpenMsg, sh => ibbOpen sh
 
 /-- can the serve loop read the rest of the element once the response is closed? -/
 def serveSurvives (sh : Shape) : Bool := sh.payload != .bad
